@@ -931,6 +931,88 @@ func (c *FnCtx) ownVars(fr *Frame) {
 	}
 }
 
+// cancellable: `attr cancellable [@PROP] ch,...`: every send to / receive from channel ch in the
+// function is a case of a select statement that also has a receive case on a context's Done
+// channel (`<-ctx.Done()`): the operation cannot keep the goroutine blocked once its context is
+// cancelled. Structural (scan of the SSA), like `hooked`.
+func (c *FnCtx) cancellable(fr *Frame) {
+	ct := fr.contract
+	if ct == nil {
+		return
+	}
+	spec, ok := ct.Attrs["cancellable"]
+	if !ok {
+		return
+	}
+	props := c.props
+	lastWasTag := false
+	for _, nm := range strings.Fields(strings.ReplaceAll(spec, ",", " ")) {
+		if strings.HasPrefix(nm, "@") {
+			if !lastWasTag {
+				props = nil
+			}
+			props = append(props, strings.TrimPrefix(nm, "@"))
+			lastWasTag = true
+			continue
+		}
+		lastWasTag = false
+		r := &OblResult{Name: c.eng.shortFuncName(fr.fn) + "/cancellable:" + nm, Class: "cancellable", Func: c.eng.funcKey(fr.fn), Kind: "prove",
+			Clause: "every send / receive on " + nm + " is a select case next to a <-ctx.Done() case", Status: "discharged", Solve: SolveResult{Status: "unsat", Winner: "ssa-scan"}}
+		var bad []string
+		seen := 0
+		where := func(in ssa.Instruction) string {
+			if p := in.Pos(); p.IsValid() {
+				pp := c.eng.prog.Fset.Position(p)
+				return fmt.Sprintf("%s:%d", strings.TrimPrefix(pp.Filename, repoDir()+"/"), pp.Line)
+			}
+			return "?"
+		}
+		for _, b := range fr.fn.Blocks {
+			for _, in := range b.Instrs {
+				switch x := in.(type) {
+				case *ssa.Send:
+					if valueName(x.Chan) == nm {
+						seen++
+						bad = append(bad, "plain send at "+where(in))
+					}
+				case *ssa.UnOp:
+					if x.Op == token.ARROW && valueName(x.X) == nm {
+						seen++
+						bad = append(bad, "plain receive at "+where(in))
+					}
+				case *ssa.Select:
+					has, done := false, false
+					for _, s := range x.States {
+						if valueName(s.Chan) == nm {
+							has = true
+						}
+						if s.Dir == types.RecvOnly && strings.HasPrefix(valueName(s.Chan), "done(") {
+							done = true
+						}
+					}
+					if has {
+						seen++
+						if !done {
+							bad = append(bad, "select without a <-ctx.Done() case at "+where(in))
+						} else if !x.Blocking {
+							// a default case never blocks either: fine
+						}
+					}
+				}
+			}
+		}
+		if seen == 0 {
+			bad = append(bad, "no operation on a channel of that name in the function")
+		}
+		if len(bad) > 0 {
+			r.Status = "refuted"
+			r.Solve = SolveResult{Status: "sat", Winner: "ssa-scan", Model: bad}
+		}
+		r.obl = &Obligation{Name: r.Name, Props: props, Kind: "prove", vc: c.vc}
+		c.decided = append(c.decided, r)
+	}
+}
+
 func (c *FnCtx) assertAll(fr *Frame) {
 	ct := fr.contract
 	if ct == nil {
